@@ -70,6 +70,14 @@ def templates(tier="quick"):
           Stmt("link", ex=["o1", "o2"], prints=P("line", "link"))]
     add("deps_failing_half_way", Variant("v0", st), js=(1, 2), faults=[{"o1": {"code": 3, "baddep": True}}, {"o2": {"code": 4, "baddep": True}},
                                                                         {"o1": {"code": 1, "baddep": True}, "o2": {"code": 7}}])
+    # failing commands with more outputs than the first: a second explicit one, implicit ones, one that a dyndep file adds --
+    # the FAILED line names what the command was to produce
+    from family_cycles import dyndep_text
+    st = [Stmt(["m1", "m2"], ex=["s"], prints=P("line", "m1")), Stmt("i1", iouts=["i1.a", "i1.b"], ex=["t"], prints=P("multi", "i1")),
+          Stmt("d1", ex=["s"], oo=["dd"], dyndep="dd", extra_outs=["d1.mod"], prints=P("line", "d1")),
+          Stmt("link", ex=["m1", "i1", "d1"], prints=P("line", "link"))]
+    add("failing_with_several_outputs", Variant("v0", st), js=(1, 3), files={"dd": dyndep_text([("d1", ["d1.mod"], [], False)])},
+        faults=[{"m1": {"code": 2}}, {"i1": {"code": 3}}, {"d1": {"code": 4}}, {"m1": {"code": 1}, "i1": {"code": 1, "touch": True}, "d1": {"code": 5}}])
     # restat pruning: totals shrink
     st = [Stmt("r", ex=["s"], restat=True, prints=P("line", "r")), Stmt("a", ex=["r"], prints=P("line", "a")),
           Stmt("b", ex=["a"], prints=P("multi", "b")), Stmt("x", ex=["t"], prints=P("line", "x"))]
